@@ -187,12 +187,24 @@ def _distinct_poly(prefix, names, shape, rng, nterms=2, maxatoms=8, mode="raw"):
     return S.make_poly_spec(prefix, names, exps, shape, rng, maxatoms, zero_prob=0.05, literal_prob=0.0, mode=mode)
 
 
+THOROUGH_ROUNDS = 40
+
+
 def gen_cases(tier: str, seed: int) -> List[Dict]:
+    """quick: one seeded third of the catalogue; thorough: the whole catalogue, THOROUGH_ROUNDS times with re-drawn operand
+    structures (names, term sets, strided views) each round."""
     rng = random.Random(9000 + seed)
-    quick = tier == "quick"
-    lim = H.limits(tier)
+    if tier == "quick":
+        return _gen_round(rng, True, H.limits(tier), 0)
+    out: List[Dict] = []
+    for r in range(THOROUGH_ROUNDS):
+        out += _gen_round(rng, False, H.limits(tier), r)
+    return out
+
+
+def _gen_round(rng, quick: bool, lim: Dict, rnd: int) -> List[Dict]:
     cases: List[Dict] = []
-    n = 0
+    n = rnd * 10000
 
     def add(fn, operands, par=None, tag=""):
         nonlocal n
